@@ -137,7 +137,7 @@ def forward_dir(cell, seed, mod=None, tag=''):
     if ok:
         ob = util.flat_outputs(y)
         cots = [util.make_input('randn', list(o.shape), seed + 2 + i) for i, o in enumerate(ob)]
-        ok, g = util.call_lib(torch.autograd.grad, ob, x, cots)
+        ok, g = util.call_lib(torch.autograd.grad, ob, x, cots, retain_graph=True)
         if not ok:
             out.append(res(VIOLATED, case, 'M-JAC', 'backward raised %r' % (g,), kf_key=kf))
         else:
@@ -146,6 +146,18 @@ def forward_dir(cell, seed, mod=None, tag=''):
             okc, d, ratio = util.compare('x.grad vs A^T g', g[0], want, tol * float(np.abs(gc).max()) * 4)
             out.append(res(HELD, case, 'M-JAC', ratio=ratio) if okc else
                        res(VIOLATED, case, 'M-JAC', d, ratio=ratio, kf_key=kf))
+            # a second cotangent, of magnitude 1e-10, pulled back through the same recorded graph
+            case2 = {'cell': cell, 'check': tag + 'second pull-back, tiny cotangent'}
+            cots2 = [1e-10 * util.make_input('randn', list(o.shape), seed + 50 + i) for i, o in enumerate(ob)]
+            ok, g2 = util.call_lib(torch.autograd.grad, ob, x, cots2)
+            if not ok:
+                out.append(res(VIOLATED, case2, 'M-JAC', 'second backward through the same graph raised %r' % (g2,), kf_key=kf))
+            else:
+                gc2 = np.concatenate([util.np64(c).reshape(6, -1) for c in cots2], axis=1)
+                okc, d, ratio = util.compare('x.grad vs A^T g (|g| ~ 1e-10)', g2[0], (gc2 @ A).reshape(2, 3, *sp),
+                                             tol * float(np.abs(gc2).max()) * 4)
+                out.append(res(HELD, case2, 'M-JAC', ratio=ratio) if okc else
+                           res(VIOLATED, case2, 'M-JAC', d, ratio=ratio, kf_key=kf))
     return out
 
 
